@@ -202,6 +202,43 @@ class SimFile:
         node.ctime_ns = st
         return len(b)
 
+    # the rest of what io.BufferedReader / BufferedRandom offer
+    def peek(self, n=0):
+        self._check()
+        if not self._readable:
+            import io
+            raise io.UnsupportedOperation("not readable")
+        self._fs._journal("read", [self.name], fd=self._fd, offset=self._pos, size=n, peek=True)
+        return bytes(self._node.data[self._pos:self._pos + max(n, 1, 4096)])
+
+    def read1(self, n=-1):
+        return self.read(n)
+
+    def readall(self):
+        return self.read()
+
+    def readinto(self, b):
+        data = self.read(len(b))
+        b[:len(data)] = data if self._binary else data.encode("utf-8")
+        return len(data)
+
+    readinto1 = readinto
+
+    def readline(self, size=-1):
+        self._check()
+        data = self._node.data
+        end = data.find(b"\n", self._pos)
+        end = len(data) if end < 0 else end + 1
+        if size is not None and size >= 0:
+            end = min(end, self._pos + size)
+        return self.read(end - self._pos)
+
+    def readlines(self, hint=-1):
+        return list(self)
+
+    def isatty(self):
+        return False
+
     def truncate(self, size=None):
         self._check()
         if size is None:
